@@ -16,6 +16,8 @@ import (
 	"os/exec"
 	"path/filepath"
 	"regexp"
+	"runtime"
+	"runtime/debug"
 	"sort"
 	"strings"
 	"time"
@@ -60,16 +62,46 @@ func run(c *hc.Ctx) {
 		c.Fail("setup", "cannot load the shared font: "+err.Error(), nil)
 		return
 	}
+	if c.Only == "auditchild" {
+		putAuditChild(c, env)
+		return
+	}
+	// watchdog: a call that neither returns nor allocates (a sweep looping on corrupted objects) would
+	// keep the harness busy for hours; after 6 minutes without a finished phase the process gives up
+	progress := make(chan struct{}, 16)
+	go func() {
+		for {
+			select {
+			case <-progress:
+			case <-time.After(6 * time.Minute):
+				fmt.Fprintln(os.Stderr, "C20 harness: no phase finished for 6 minutes (a library call does not return); giving up")
+				os.Exit(3)
+			}
+		}
+	}()
+	tick := func() { progress <- struct{}{} }
 	if c.Only == "" || c.Only == "facts" {
 		factsCorr(c)
 	}
 	if c.Only == "" || c.Only == "trace" {
 		traceCorr(c)
 	}
+	tick()
 	ops := genBatch(c, c.N)
 	c20ops.SaveBatch(filepath.Join(d.run, "batch.json"), ops) // for replay by hand
+	// the audit runs first and in child processes: when objects are Put twice the pools hand one object
+	// to two owners and every later in-process phase would run on corrupted objects (and may not return)
+	if c.Only == "" || c.Only == "audit" {
+		putAudit(c, d)
+		tick()
+		if c.Hist["FAIL:pool:double-put:SweepPoint"]+c.Hist["FAIL:pool:double-put:SweepNode"]+c.Hist["FAIL:pool:double-put:toleranceSquare"] > 0 {
+			c.Count("skipped-in-process-phases-after-double-put")
+			return
+		}
+	}
 	if c.Only == "" || c.Only == "det" {
 		determinism(c, env, ops)
+		tick()
 	}
 	if c.Only == "" || c.Only == "race" {
 		raceRun(c, d, env, ops)
@@ -669,6 +701,284 @@ func determinism(c *hc.Ctx, env *c20ops.Env, ops []c20ops.Op) {
 	compare(c, "after-pool-pollution", ops, base, c20ops.RunSeq(env, ops, rev))
 	canvas.VerifPoolPoison(512, 0)
 	compare(c, "16-goroutines-after-pool-junk", ops, base, c20ops.RunConc(env, ops, 16))
+}
+
+// ---- pool audit: no object is Put twice, no result depends on a long history ---------------------
+
+// genCollapse: operands on which segments collapse under the 1e-8 snap grid or coincide: repeated and
+// reversed subpaths, self-overlapping grid polygons, near-vertical edges, micro edges shorter than
+// the grid, sub-grid coordinates.
+func genCollapse(c *hc.Ctx) (*canvas.Path, string) {
+	class := []string{"repeated-subpath", "self-overlap", "near-vertical", "micro-edges", "sub-grid"}[c.Intn(5)]
+	p := &canvas.Path{}
+	ring := func(pts []hc.P2) {
+		for i, v := range pts {
+			if i == 0 {
+				p.MoveTo(v.X, v.Y)
+			} else {
+				p.LineTo(v.X, v.Y)
+			}
+		}
+		p.Close()
+	}
+	grid := func(k int) []hc.P2 {
+		var pts []hc.P2
+		for i := 0; i < k; i++ {
+			pts = append(pts, hc.P2{X: float64(c.Intn(9) - 4), Y: float64(c.Intn(9) - 4)})
+		}
+		return pts
+	}
+	switch class {
+	case "repeated-subpath":
+		pts := grid(3 + c.Intn(5))
+		ring(pts)
+		for r := 0; r < 1+c.Intn(2); r++ {
+			q := append([]hc.P2(nil), pts...)
+			if c.Bool() {
+				for i, j := 0, len(q)-1; i < j; i, j = i+1, j-1 {
+					q[i], q[j] = q[j], q[i]
+				}
+			}
+			if c.Chance(0.4) {
+				d := float64(1+c.Intn(9)) * 1e-9
+				for i := range q {
+					q[i].X += d
+				}
+			}
+			ring(q)
+		}
+	case "self-overlap":
+		pts := grid(4 + c.Intn(6))
+		for i := 1; i < len(pts); i++ { // axis-parallel and revisited vertices
+			if c.Chance(0.4) {
+				pts[i].Y = pts[i-1].Y
+			} else if c.Chance(0.3) {
+				pts[i] = pts[c.Intn(i)]
+			}
+		}
+		ring(pts)
+	case "near-vertical":
+		pts := grid(3 + c.Intn(6))
+		for i := range pts {
+			pts[i].X = float64(c.Intn(3)-1) + float64(c.Intn(9))*float64([]float64{1e-10, 5e-10, 2.5e-9, 1e-8}[c.Intn(4)])
+		}
+		ring(pts)
+	case "micro-edges":
+		pts := grid(3 + c.Intn(5))
+		var q []hc.P2
+		for _, v := range pts {
+			q = append(q, v)
+			for k := 0; k < c.Intn(3); k++ {
+				q = append(q, hc.P2{X: v.X + float64(c.Intn(11)-5)*1e-9, Y: v.Y + float64(c.Intn(11)-5)*1e-9})
+			}
+		}
+		ring(q)
+	default:
+		var pts []hc.P2
+		for i := 0; i < 4+c.Intn(8); i++ {
+			pts = append(pts, hc.P2{X: float64(c.Intn(13)-6) * 2.5e-9 * float64(1+c.Intn(3)), Y: float64(c.Intn(13)-6) * 2.5e-9 * float64(1+c.Intn(400000000)%7)})
+		}
+		ring(pts)
+		if c.Bool() {
+			ring(grid(3 + c.Intn(3)))
+		}
+	}
+	return p, class
+}
+
+func genCollapseOp(c *hc.Ctx) (c20ops.Op, string) {
+	data := func(p *canvas.Path) []float64 { return append([]float64(nil), p.Data()...) }
+	a, cl := genCollapse(c)
+	if c.Chance(0.45) {
+		return c20ops.Op{Kind: "Settle", A: data(a), F: []float64{float64(c.Intn(4))}}, cl
+	}
+	b, cl2 := genCollapse(c)
+	return c20ops.Op{Kind: []string{"And", "Or", "Xor", "Not", "DivideBy"}[c.Intn(5)], A: data(a), B: data(b)}, cl + "+" + cl2
+}
+
+// putAudit runs the audit in child processes with their own address-space cap and time limit: the
+// collapse-prone operand classes contain inputs on which a boolean operation does not return and
+// allocates without bound (a totality defect, property C10 — not judged here); such a call can only be
+// stopped by killing the process. A child that dies is counted, its last call is kept as a sample, and
+// the next child continues with another seed.
+func putAudit(c *hc.Ctx, d dirs) {
+	rounds := 2
+	if c.Tier != "quick" {
+		rounds = 8
+	}
+	self, err := os.Executable()
+	if err != nil {
+		c.Fail("audit-unavailable", err.Error(), nil)
+		return
+	}
+	for r := 0; r < rounds; r++ {
+		out := filepath.Join(d.run, fmt.Sprintf("audit-%d", r))
+		os.MkdirAll(out, 0o755)
+		last := filepath.Join(out, "lastop.json")
+		skip := ""
+		for attempt := 0; ; attempt++ {
+			os.Remove(filepath.Join(out, "report.json"))
+			cmd := exec.Command("bash", "-c", `ulimit -v 2500000; exec "$0" "$@"`, self, c.Tier, fmt.Sprint(c.Seed*1000+uint64(r)), fmt.Sprint(c.N), out, "auditchild")
+			cmd.Env = append(os.Environ(), "VERIF_C20_LASTOP="+last, "VERIF_C20_SKIP="+skip, "GOMEMLIMIT=1GiB")
+			done := make(chan error, 1)
+			if err := cmd.Start(); err != nil {
+				c.Fail("audit-unavailable", err.Error(), nil)
+				return
+			}
+			go func() { done <- cmd.Wait() }()
+			var werr error
+			select {
+			case werr = <-done:
+			case <-time.After(3 * time.Minute):
+				cmd.Process.Kill()
+				werr = fmt.Errorf("timeout")
+			}
+			b, rerr := os.ReadFile(filepath.Join(out, "report.json"))
+			var rep struct {
+				Evaluations int            `json:"evaluations"`
+				Distinct    int            `json:"distinct_nontrivial"`
+				Hist        map[string]int `json:"hist"`
+				Fails       []hc.Fail      `json:"fails"`
+			}
+			if werr != nil || rerr != nil || json.Unmarshal(b, &rep) != nil {
+				// the call that was running does not return: skip it by index and run the child again
+				var lo struct {
+					Index int            `json:"index"`
+					Op    map[string]any `json:"op"`
+				}
+				lb, _ := os.ReadFile(last)
+				if json.Unmarshal(lb, &lo) != nil || attempt >= 15 {
+					c.Count("audit:child-abandoned")
+					break
+				}
+				c.Count("audit:call-does-not-return(C10,skipped)")
+				delete(lo.Op, "a_hex")
+				delete(lo.Op, "b_hex")
+				ob, _ := json.Marshal(lo.Op)
+				c.Sample("call that does not return (killed at 2.5 GB): " + clip(string(ob)))
+				skip += fmt.Sprintf("%d,", lo.Index)
+				continue
+			}
+			c.Count("audit:child-completed")
+			c.Evals += rep.Evaluations
+			for k, v := range rep.Hist {
+				c.Hist[k] += v
+			}
+			for _, f := range rep.Fails {
+				c.Hist["FAIL:"+f.Kind]-- // Fail counts it again
+				c.Fail(f.Kind, f.Desc, f.Replay)
+			}
+			for i := 0; i < rep.Distinct; i++ {
+				c.Distinct(fmt.Sprintf("audit-child-%d-%d", r, i))
+			}
+			break
+		}
+	}
+}
+
+func putAuditChild(c *hc.Ctx, env *c20ops.Env) {
+	skip := map[int]bool{}
+	for _, f := range strings.Split(os.Getenv("VERIF_C20_SKIP"), ",") {
+		var k int
+		if _, err := fmt.Sscan(f, &k); err == nil {
+			skip[k] = true
+		}
+	}
+	idx := 0
+	// guarded: note the call (for the parent, should it not return); false = on the skip list
+	guarded := func(op c20ops.Op) bool {
+		idx++
+		if skip[idx] {
+			c.Count("audit:skipped-non-returning-call")
+			return false
+		}
+		if f := os.Getenv("VERIF_C20_LASTOP"); f != "" {
+			b, _ := json.Marshal(map[string]any{"index": idx, "op": opReplay(op)})
+			os.WriteFile(f, b, 0o644)
+		}
+		return true
+	}
+	n := 4 * c.N
+	doublePuts := 0
+	var probes []c20ops.Op
+	for i := 0; i < n; i++ {
+		op, cl := genCollapseOp(c)
+		if !guarded(op) {
+			continue
+		}
+		var res string
+		drained, dups := canvas.VerifC20PutAudit(func() { res = op.Run(env) })
+		c.Evals++
+		c.Count("audit:class:" + cl[:strings.IndexAny(cl+"+", "+")])
+		if strings.HasPrefix(res, "panic") {
+			c.Count("audit:panic")
+		}
+		if drained[0] > 0 {
+			c.Count("audit:calls-with-released-points")
+		}
+		for k, name := range []string{"SweepPoint", "SweepNode", "toleranceSquare"} {
+			if dups[k] > 0 {
+				r := opReplay(op)
+				r["class"], r["drained"], r["duplicates"], r["result"] = cl, drained[k], dups[k], clip(res)
+				c.Fail("pool:double-put:"+name, fmt.Sprintf("%s (%s): %d of the %d %s objects returned to the pool by this one call were Put twice", op.Kind, cl, dups[k], drained[k], name), r)
+				doublePuts++
+			}
+		}
+		if doublePuts >= 3 {
+			return // from here on the real pools would hand one object to two owners: nothing else is meaningful
+		}
+		if doublePuts > 0 {
+			continue // no call on the real pools any more
+		}
+		// the same call with the collector switched off (nothing leaves the pools during the call)
+		// and with a collection after almost every allocation (the pools are emptied again and again
+		// during the call): a difference means the call's outcome depends on whether an object it
+		// has released is handed back to it — a use after Put inside one call
+		c.Distinct("audit:" + op.Kind + hc.DataHex(op.A) + hc.DataHex(op.B))
+		if i%8 != 0 {
+			continue
+		}
+		debug.SetGCPercent(-1)
+		quiet := op.Run(env)
+		runtime.GC()
+		runtime.GC()
+		debug.SetGCPercent(1)
+		storm := op.Run(env)
+		debug.SetGCPercent(100)
+		c.Evals++
+		if quiet != storm {
+			r := opReplay(op)
+			r["class"], r["gc-off"], r["gc-storm"] = cl, clip(quiet), clip(storm)
+			c.Fail("pool:result-depends-on-gc:"+op.Kind, fmt.Sprintf("%s (%s) returns different results with the collector off and with frequent collections (sync.Pool is emptied by the collector)", op.Kind, cl), r)
+		}
+		if len(probes) < 64 {
+			probes = append(probes, op)
+		}
+	}
+	if doublePuts > 0 {
+		return
+	}
+	// long histories: the same call before and after many other calls of these classes
+	hist := 10000
+	if c.Tier == "quick" {
+		hist = 2500
+	}
+	before := make([]string, len(probes))
+	for i, op := range probes {
+		before[i] = op.Run(env)
+	}
+	for i := 0; i < hist; i++ {
+		op, _ := genCollapseOp(c)
+		if guarded(op) {
+			op.Run(env)
+		}
+	}
+	c.Hist["audit:history-calls"] += hist
+	after := make([]string, len(probes))
+	for i, op := range probes {
+		after[i] = op.Run(env)
+	}
+	compare(c, fmt.Sprintf("after-%d-other-calls", hist), probes, before, after)
 }
 
 // ---- race detector ------------------------------------------------------------------------------
